@@ -67,6 +67,8 @@ def seed_cover(nprobe):
 
 
 def fns_of(inp):
+    if "fns" in P.INPUTS[inp]:
+        return P.INPUTS[inp]["fns"]
     return P.STATIC if P.INPUTS[inp]["kind"] == "static" else P.DSFN
 
 
